@@ -96,6 +96,8 @@ local ok2, m2 = coroutine.resume(co, "A")
 local w = coroutine.wrap(function() return unpack(t) end)
 return caught, s1, ok2, type(m2), coroutine.status(co)`, "registry overflow|dead|false|string|dead", nil},
 	{"C14", "set-with-escaped-punctuation-before-a-dash", `local function m(s, p) return (s:find(p)) ~= nil end return m("-", "[%.-_]"), m(".", "[%.-_]"), m("_", "[%.-_]"), m("A", "[%.-_]"), m("0", "[%.-_]"), m("-", "[%--x]"), m("a", "[%--x]"), m("b", "[%a-z]") , m("-", "[%a-]"), m("+", "[%+-%.]")`, "true|true|true|false|false|true|false|true|true|true", nil},
+	{"C18", "maxn-ignores-cleared-keys", `local t = {1, 2, 3} t[7.5] = "x" t[7.5] = nil t[2^27] = "y" t[2^27] = nil t[-3] = "z" local u = {} u[7.5] = 1 local w = {} w[2^27] = 1 w[2^27] = nil w[9.25] = 2 return table.maxn(t), table.maxn({}), table.maxn(u), table.maxn(w)`, "3|0|7.5|9.25", nil},
+	{"C18", "remove-from-a-list-emptied-by-assignment", `local t = {1, 2, 3} t[3] = nil t[2] = nil t[1] = nil local u = {1, 2} u[2] = nil return select("#", table.remove(t)), select("#", table.remove(t, nil)), #t, table.remove(u), select("#", table.remove(u)), #u`, "0|0|0|1|0|0", nil},
 	// seventh batch
 	{"C15", "string-position-minus-2^63", `return ("abc"):sub(-2^63), ("abc"):sub(-math.huge), (("abc"):find("b", -2^63)), (("abc"):byte(-2^63)), ("abc"):sub(-2^63, -2^63), ("abc"):byte(-2^63, -1)`, "abc|abc|2|nil||97|98|99", nil},
 	{"C15", "random-argument-count", `math.randomseed(1) local a = math.random(1, 2) return pcall(math.random, 1, 2, 3), a >= 1 and a <= 2, pcall(math.random, 2, 1)`, "false|true|false", nil},
